@@ -5,7 +5,7 @@
    The parts: C03_text_to_ast / parse_complete_full (text to annotated AST, every layout) and C01_generated. *)
 From P2 Require Import Base.Prelude Lex.Token Sem.Num Sem.Syntax Sem.Ops Sem.Lib Sem.Ref Sem.Gen Sem.Sim
   Sem.RelProofs Sem.GenProofs Generated.ValueCfg.
-From P2 Require Import Syn.Parse Syn.Render Syn.Full Syn.FullProofs Syn.TextToAst Syn.Lower.
+From P2 Require Import Syn.Parse Syn.Render Syn.Full Syn.FullProofs Syn.TextToAst Syn.RenderText Syn.Lower.
 From P2 Require Lex.Tok Lex.TokProofs.
 
 (* ---------- the value configuration ---------- *)
@@ -90,4 +90,54 @@ Theorem text_layout_irrelevant_run : forall tc known fuel argnames items items' 
 Proof.
   intros tc known fuel argnames items items' args Ho H1 H2 He. unfold run_text, text_ast.
   rewrite (text_layout_irrelevant tc value_pcfg (value_ids argnames) items items' Ho H1 H2 He). reflexivity.
+Qed.
+
+(* ---------- the canonical text of a program tree (Syn/RenderText.v) ---------- *)
+(* for the value configuration the conditions of [spellable] on the configuration hold as soon as the blank is neither
+   a letter nor a digit: the table is usable, comfort mode is off, no operator contains a blank, a line break or NUL *)
+Lemma value_cfg_spell : forall comments letter number, letter 32%N = false -> number 32%N = false ->
+  cfg_spell (value_tcfg comments letter number) = true.
+Proof.
+  intros comments letter number Hl Hn. unfold cfg_spell.
+  change (P2.Lex.Tok.c_letter (value_tcfg comments letter number) 32%N) with (letter 32%N).
+  change (P2.Lex.Tok.c_number (value_tcfg comments letter number) 32%N) with (number 32%N).
+  rewrite Hl, Hn. vm_compute. reflexivity.
+Qed.
+
+Lemma value_spellable : forall comments letter number r, letter 32%N = false -> number 32%N = false ->
+  spellable (value_tcfg comments letter number) value_pcfg r
+  = forallb (spell_tok (value_tcfg comments letter number)) (fflatten value_pcfg r).
+Proof.
+  intros comments letter number r Hl Hn. unfold spellable, spellable_toks.
+  rewrite value_table_ok, (value_cfg_spell comments letter number Hl Hn). reflexivity.
+Qed.
+
+(* text -> tokens -> annotated AST for the canonical text, value configuration *)
+Theorem value_render_roundtrip : forall comments letter number argnames r e u,
+  letter 32%N = false -> number 32%N = false ->
+  forallb (spell_tok (value_tcfg comments letter number)) (fflatten value_pcfg r) = true ->
+  fwf value_pcfg r = true -> ferase value_pcfg (value_ids argnames) r = Some (e, u) ->
+  parse_tokens value_pcfg (value_ids argnames)
+    (P2.Lex.Tok.tokenize (value_tcfg comments letter number) (render_text value_pcfg r)) = POk e.
+Proof.
+  intros comments letter number argnames r e u Hl Hn Hs W E.
+  apply (render_roundtrip _ value_pcfg (value_ids argnames) r e u); [|exact W|exact E].
+  rewrite value_spellable by assumption. exact Hs.
+Qed.
+
+(* C01 from the canonical text: from_text with the layout hypotheses replaced by the decidable [spellable] *)
+Theorem from_rendered_text : forall tc known fuel argnames r e u a args1 args2,
+  spellable tc value_pcfg r = true ->
+  fwf value_pcfg r = true -> ferase value_pcfg (value_ids argnames) r = Some (e, u) -> lower e = Some a ->
+  gen_check (S (ast_size a)) (map Some argnames) [] a = true -> side_ok a = true ->
+  Forall2 vrel args1 args2 -> length args2 = length argnames ->
+  text_ast tc argnames (render_text value_pcfg r) = Some a /\
+  orel (eval known fuel (combine argnames args1) a)
+       (run_text tc known fuel argnames (render_text value_pcfg r) args2).
+Proof.
+  intros tc known fuel argnames r e u a args1 args2 Hs W E La G S V L.
+  unfold spellable in Hs. apply andb_true_iff in Hs. destruct Hs as [_ Hs].
+  destruct (render_layout tc (fflatten value_pcfg r) Hs) as (Ho & Hw & Hl & Hx).
+  unfold render_text. rewrite <- Hx.
+  exact (from_text tc known fuel argnames (layout_of (fflatten value_pcfg r)) r e u a args1 args2 Ho Hw Hl W E La G S V L).
 Qed.
